@@ -246,11 +246,22 @@ def check_regkey(prop: str, res: Result, repo: Repo):
         res.fail(rule, finding(prop, rule, cm, cm.node, f"CandleManager spells its timeframe by {sorted(mforms)} while indicators are looked up by {sorted(vforms)}: a manager registered under one spelling is not found under the other, so a second manager is created and the first one is no longer fed", construct="CandleManager.__init__: timeframe spelling " + ", ".join(sorted(mforms))))
     nm = repo.cls("hexital.core.candle_manager", "CandleManager").methods.get("name")
     if nm is not None:
-        rets = [ast.unparse(n.value) for n in ast.walk(nm.node) if isinstance(n, ast.Return) and n.value is not None]
-        if rets == ["self.timeframe if self.timeframe else DEFAULT_CANDLES"]:
-            res.ok(rule, {"site": nm.where, "name": rets[0]})
+        good, seen = True, 0
+        for p in stmt_paths(nm.node.body):
+            ret = next((x for x in reversed(p) if isinstance(x, ast.Return)), None)
+            if ret is None or ret.value is None:
+                continue
+            seen += 1
+            conds = [(ast.unparse(item[1].test), item[2]) for item in p if isinstance(item, tuple) and item[0] == "if"]
+            has_tf = ("self.timeframe", True) in conds
+            no_tf = ("self.timeframe", False) in conds or not conds
+            v = ast.unparse(ret.value)
+            if not ((v == "self.timeframe" and has_tf) or (v == "DEFAULT_CANDLES" and no_tf and not has_tf) or v == "self.timeframe if self.timeframe else DEFAULT_CANDLES" or v == "self.timeframe or DEFAULT_CANDLES"):
+                good = False
+        if good and seen:
+            res.ok(rule, {"site": nm.where, "name": "self.timeframe if set, else DEFAULT_CANDLES"})
         else:
-            res.fail(rule, finding(prop, rule, nm, nm.node, "CandleManager.name must be its timeframe (DEFAULT_CANDLES without one)", construct="CandleManager.name: " + "; ".join(rets)))
+            res.fail(rule, finding(prop, rule, nm, nm.node, "CandleManager.name must be its timeframe (DEFAULT_CANDLES without one)", construct="CandleManager.name"))
 
 
 def check_registry_order(prop: str, res: Result, repo: Repo):
